@@ -124,6 +124,7 @@ def extract(config="default", repo=REPO):
 
 _sigs = None
 ALIASES = {}
+_DEFAULT_ALIASES = None
 
 
 def private_sigs():
@@ -167,9 +168,19 @@ def load(config="default", repo=REPO):
             raw = f.read()
         raws[c] = raw.replace("crate::", c + "::")
         crates[c] = json.loads(raws[c])
-    al = renamed_privates(crates)
-    ALIASES.clear()
-    ALIASES.update(al)
+    # renames are recognised in the default configuration (a superset of all non-test code) and reused for the others: in a
+    # reduced configuration a helper may simply be compiled out, which is not a rename
+    global _DEFAULT_ALIASES
+    if config == "default":
+        al = renamed_privates(crates)
+        _DEFAULT_ALIASES = dict(al)
+        ALIASES.clear()
+        ALIASES.update(al)
+    else:
+        if _DEFAULT_ALIASES is None:
+            load("default", repo)
+        keys = {f["key"] for j in crates.values() for f in j["fns"]}
+        al = {n: o for n, o in (_DEFAULT_ALIASES or {}).items() if n in keys}
     if al:
         import re
         for c in want:
